@@ -367,6 +367,11 @@ func (fr *Frame) oblige(kind, detail, cond string, clause string) {
 		x.obls = append(x.obls, &Obligation{Name: name, Kind: kind, Fn: x.fnKey, Props: x.props, Pos: x.em.Mark(),
 			Goal: sAnd(fr.curReach, sNot(cond)), Expect: "unsat", Clause: clause, em: x.em, replay: x.replayCtx, rets: x.curRets})
 	}
+	if kind == "post" || kind == "frame" {
+		// nothing follows a return; keeping failed postconditions out of the assumptions also
+		// keeps the vacuity guard (cover:return) meaningful
+		return
+	}
 	x.em.Assert(sImp(fr.curReach, cond))
 }
 
@@ -583,6 +588,23 @@ func (fr *Frame) binop(op token.Token, xv, yv *SVal, rt types.Type, instr ssa.In
 	}
 	w, signed := intInfo(rt)
 	var raw string
+	if ca, ok := isIntLit(a); ok {
+		if cb, ok := isIntLit(b); ok && (op == token.ADD || op == token.SUB || op == token.MUL) {
+			r := new(big.Int)
+			switch op {
+			case token.ADD:
+				r.Add(ca, cb)
+			case token.SUB:
+				r.Sub(ca, cb)
+			case token.MUL:
+				r.Mul(ca, cb)
+			}
+			lo, hi := intRange(rt)
+			if r.Cmp(lo) >= 0 && r.Cmp(hi) <= 0 {
+				return leaf(rt, sBig(r))
+			}
+		}
+	}
 	switch op {
 	case token.ADD:
 		raw = "(+ " + a + " " + b + ")"
